@@ -12,7 +12,7 @@ from ..core import AnalysisError, own_nodes, norm
 from .. import roles
 from . import C05
 
-LEVEL_TEXT = ('static analysis: (D1) center_all interpreted on a symbolic table (two autosomes, X, PAR-X, Y, PAR-Y, a mitochondrial, an unplaced,'
+LEVEL_TEXT = ('static analysis: (KIND) the maleness verdict guess_xx negates with `~` is None or a comparison with a numpy scalar on every value path of compare_sex_chromosomes (scalar-kind may-analysis over its body and nested helpers; a Python bool under `~` is -1 / -2, always true); (D1) center_all interpreted on a symbolic table (two autosomes, X, PAR-X, Y, PAR-Y, a mitochondrial, an unplaced,'
               ' a *_random and an unprefixed decoy contig, two null-coverage bins: depth 0, and a tiny depth with the placeholder log2) with an '
               'opaque estimator: every bin is shifted by one and the same term, minus the estimator applied -- per chromosome first, then across '
               'the per-chromosome values, or directly when by_chrom is off -- to exactly the autosomal bins (plus PAR-X iff a PAR genome is '
